@@ -35,11 +35,11 @@ CHECKS.update({
  'C07': ('model_checking', 'exhaustive product of SELECT item sets (agg op literal, agg op agg, parenthesised, aggregate over expression / function / CASE, function over aggregate, the same parameterised aggregate twice) x HAVING (incl. NOT, unselected aggregates, OR before AND without parentheses) x ORDER BY x LIMIT x DISTINCT on 8 datasets (incl. text sort keys that read as numbers) against a relational reference; consecutive batches must still read at the end what they read at delivery', 'DESIGN.md 3/C07', SEQ_NOTE, DET),
  'C11': ('model_checking', 'every token string of length <=5/6 over 25 tokens and every byte string of length <=4/5 over 16 hostile bytes after 6 prefixes parsed under panic capture and a hang watchdog; every generated grammar statement (incl. un-aliased JOINs, keyword-bearing identifiers MATCH_RECOGNIZE statements (incl. reluctant quantifiers spelt with and without blanks) and every spelling of the WITHIN bound) WITH options in both orders, the window first in GROUP BY, and the one-edit neighbourhood of 9 valid statements in two layouts (totality) compared field by field with the returned configuration and re-parsed in 12 layouts (token-wise keyword case x separators)', 'DESIGN.md 3/C11', 'trusted base: the statement generator doubles as the expectation; rsql.Parse is called directly (no scheduler needed)', 'bounded-exhaustive enumeration of inputs/programs on the real parser'),
  'C12': ('model_checking', 'exhaustive product of shortcut-shaped predicates (8 operators x 12 literals; && / || chains; three- and four-term chains mixing && and ||) x 40 typed values through the shortcut path and through the parenthesised text that forces the general evaluator, plus WHERE, HAVING, TRIGGER WHEN and OVER-WHEN seams (also several WHEN predicates in one query differing only in case, blanks or one character; HAVING over keyword-bearing alias spellings decides as over a neutral alias; TRIGGER WHEN literals with foreign quotes and operators and the same aggregate of two columns against a reference); auxiliary: the free-running -race pass of Emit || EmitSync callers evaluating one general-path predicate', 'DESIGN.md 3/C12', 'trusted base: the parenthesised form is the general evaluator', 'exhaustive differential enumeration (shortcut path vs general path) on the implementation'),
- 'C13': ('model_checking', 'all patterns x all texts of length <=3/4 over {%,_,a,b,.} in WHERE, CASE, SELECT and HAVING against a regexp reference; IS [NOT] NULL over present/NULL/missing and nested paths in every context; keyword case variants, NULL/missing text, keyword-bearing column and alias names (also in the HAVING text), nested-path operands', 'DESIGN.md 3/C13', SEQ_NOTE, DET),
+ 'C13': ('model_checking', 'all patterns x all texts of length <=3/4 over {%,_,a,b,.} in WHERE, CASE, SELECT and HAVING against a regexp reference; IS [NOT] NULL over present/NULL/missing and nested paths in every context, each also with the IS [NOT] NULL keywords in lower and mixed case; keyword case variants, NULL/missing text, keyword-bearing column and alias names (also in the HAVING text), nested-path operands', 'DESIGN.md 3/C13', SEQ_NOTE, DET),
  'C14': ('model_checking', '6 analytic queries x all row sequences (length<=4/5 over 3 partitions x {1,2,NULL,missing}) through EmitSync against per-partition reference state machines, sync vs async, partition isolation, changed_col(s), WHEN gating (passing rows metamorphic, failing rows repeat the last result), wrappers over two analytic calls (sparse rows; a NULL first call before a cumulative one), start/reset arguments of acc_* with overlapping predicates, container-valued columns, pairwise partition-key collision search, partition cap (also under a WHEN gate), an analytic call in WHERE with PARTITION BY and WHEN, had_changed(.., *) over whole rows', 'DESIGN.md 3/C14', SEQ_NOTE, DET),
  'C15': ('model_checking', '33 patterns (incl. {n,m} with m>=n+2, {n} next to a variable-length part and PERMUTE of three variables) x 8 DEFINE templates (incl. aggregates over all-negative values, one function called twice with different arguments and FIRST/LAST qualified by a variable, also in MEASURES) x every SKIP mode x all event streams (length<=5/7 over 3 values) against a brute-force matcher (all valid labelings; leftmost start, longest end, SKIP rule), MEASURES aggregates over the match, events lacking a DEFINE column, ALL ROWS classification, two interleaved partitions, WITHIN (longest run per start whose span fits), pairwise partition-key search', 'DESIGN.md 3/C15', SEQ_NOTE, DET),
  'C16': ('model_checking', '6 JOIN queries x initial tables x all operation sequences (length<=3/4 over EmitSync/Upsert/Delete with int/float/string/NULL key components) against a typed-key reference table; 864 ON-clause naming configurations; composite-key pair search (match iff equal); GROUP BY/WHERE on joined columns; upserts whose row prints like the stored one; re-registration of a table; all schedules (<=1/2 deviations) of Emit x2 against Upsert+Delete with a table-version window oracle (Unlock is a scheduling point when the tree uses TryLock); auxiliary: free-running -race pass of Emit/EmitSync against UpsertTable/Delete', 'DESIGN.md 3/C16', SEQ_NOTE + '; ' + SCHED_NOTE, DET + ' + stateless schedule DFS'),
- 'C17': ('model_checking', '17 TRIGGER WHEN predicates (incl. OR before AND without parentheses) x all row sequences (length<=4/6 over 2 groups x {1,2,3,NULL}; short ones also with pauses between rows; without GROUP BY; typed numbers) against the running-aggregate reference; pairwise group-key identity search; strategy block with a lagging consumer; aggregates with expression arguments in SELECT and in the predicate; statistics calls between rows, STATETTL, several queries sharing one predicate text, type-independent aggregates over a text column, trigger literals with foreign quotes and operators, the same aggregate of two columns', 'DESIGN.md 3/C17', SEQ_NOTE, DET),
+ 'C17': ('model_checking', '17 TRIGGER WHEN predicates (incl. OR before AND without parentheses) x all row sequences (length<=4/6 over 2 groups x {1,2,3,NULL}; short ones also with pauses between rows; without GROUP BY; typed numbers) against the running-aggregate reference; pairwise group-key identity search; strategy block with a lagging consumer; aggregates with expression arguments in SELECT and in the predicate; statistics calls between rows, STATETTL, several queries sharing one predicate text, type-independent aggregates over a text column, trigger literals with foreign quotes and operators, the same aggregate of two columns, an aggregated column whose name has AND / OR parts (or_v_and)', 'DESIGN.md 3/C17', SEQ_NOTE, DET),
  'C18': ('model_checking', 'all schedules (quick: <=2 deviations, every non-default choice costs 1; thorough: <=1 preemption with free choices at blocking points) of Emit/Stop/AddSink/GetStats/TriggerWindow/EmitSync threads (TriggerWindow also after Stop) on 11 query kinds x 3 overflow strategies with plain, panicking (sync and async), re-entrant (GetStats, AddSink, EmitSync), blocking, gated and slow asynchronous sinks, a pair of synchronous sinks of which the first panics, rows whose evaluation panics in a user function; monitors for panic, deadlock, Stop barrier, grace timer, goroutine leak, delivery of later rows after a sink panic; plus the free-running -race pass', 'DESIGN.md 3/C18', SCHED_NOTE, 'stateless DFS over schedules of the instrumented implementation, deviation-bounded, happens-before state caching; auxiliary -race pass'),
  'C20': ('model_checking', '33 query kinds (incl. FROM alias without a JOIN) x Emit/EmitSync x nested rows: deep snapshots of caller maps and of delivered batches; every registered scalar, aggregate and analytic function over the caller\'s own slices and maps; 18 instance pairs (one worker process each) x all input sequences (length<=2/3) x all interleavings of the two inputs against solo runs on fresh globals; plus the free-running -race pass', 'DESIGN.md 3/C20', SEQ_NOTE, DET + ' over all operation interleavings of two instances; auxiliary -race pass'),
 })
